@@ -195,7 +195,7 @@ func (j *judge) violate(f vutil.Finding) {
 	l := append(j.viol[f.Kind], f)
 	sort.SliceStable(l, func(a, b int) bool {
 		// files that do import something first: they show what is lost
-		if ia, ib := strings.Contains(l[a].Class, "import"), strings.Contains(l[b].Class, "import"); ia != ib {
+		if ia, ib := importsSomething(l[a]), importsSomething(l[b]); ia != ib {
 			return ia
 		}
 		if len(l[a].Class) != len(l[b].Class) {
@@ -207,6 +207,15 @@ func (j *judge) violate(f vutil.Finding) {
 		l = l[:keepPerKind]
 	}
 	j.viol[f.Kind] = l
+}
+
+func importsSomething(f vutil.Finding) bool {
+	d, ok := f.Detail.(map[string]interface{})
+	if !ok {
+		return false
+	}
+	ref, ok := d["goparser_imports"].([]string)
+	return ok && len(ref) > 0
 }
 
 // flush hands the kept findings to the result file.
